@@ -510,8 +510,8 @@ def lattice_check(ctx):
     th = tier == "thorough"
     defs = {"GFam": vp.tla_set(["Monoclinic", "Orthorhombic", "Hexagonal", "Tetragonal"]),
             "GAx": vp.tla_set([10, 25, 64] + ([7, 40] if th else [])),
-            "GB": vp.tla_set([(0, 10), (0, 25), (15, 20), (12, 5), (5, 12), (32, 55)] + ([(0, 64), (9, 12), (24, 7), (3, 4)] if th else [])),
-            "GFrac": vp.tla_set([-21, -8, -4, -1, 0, 3, 4, 6, 13] + ([-16, -3, 1, 8, 20] if th else [])),
+            "GB": vp.tla_set([(0, 10), (0, 25), (15, 20), (12, 5), (5, 12), (32, 55), (-15, 20), (-5, 12)] + ([(0, 64), (9, 12), (24, 7), (3, 4), (-24, 7)] if th else [])),
+            "GFrac": vp.tla_set([-21, -8, -4, -1, 0, 3, 4, 6, 13] if th else [-21, -4, -1, 0, 3, 4, 6] + ([-16, -3, 1, 8, 20] if th else [])),
             "GOr": vp.tla_set([1, 5, 14] + ([2, 7, 11] if th else [])),
             "GK": vp.tla_set([0, 1, 2, 3] + ([4] if th else []))}
     cfg = ("SPECIFICATION Spec\nCONSTANTS\n  U = 10\n  D = 8\n  FamSet <- GFam\n  AxSet <- GAx\n  BSet <- GB\n"
